@@ -6,18 +6,19 @@ Local Open Scope N_scope.
    zeroout, over any number of appending sessions (UReopen), any filesystem
    offset, any channel block size B dividing the undo block size T: replaying
    the recorded keys gives back every byte of the original device.
-   (reopen_ok_ops: appending sessions are covered for filesystem offsets below
-   one undo block; with a larger offset the implementation refuses to reopen
-   the undo file - it compares the superblock before the offset is known.) *)
+   Appending sessions at filesystem offsets of one undo block or more were excluded by a
+   hypothesis (reopen_ok_ops) until the thorough tier replayed W 0 2; REOPEN; W 1 1 with
+   B = T = off = 1024 on the real code: try_reopen_undo_file rebuilt its block map from the
+   keys without the offset.  With the repaired code the hypothesis is gone. *)
 Theorem undo_restores : forall B T off d0 ops,
-  0 < B -> 0 < T -> T mod B = 0 -> reopen_ok_ops T off ops ->
+  0 < B -> 0 < T -> T mod B = 0 ->
   forall o, e2undo B off (urun B T off (uinit d0) ops) o = d0 o.
 Proof. exact undo_restores_all. Qed.
 Print Assumptions undo_restores.
 
 (* The order in which e2undo writes the keys back is irrelevant. *)
 Theorem undo_replay_order_irrelevant : forall B T off d0 ops keys',
-  0 < B -> 0 < T -> T mod B = 0 -> reopen_ok_ops T off ops ->
+  0 < B -> 0 < T -> T mod B = 0 ->
   let s := urun B T off (uinit d0) ops in
   (forall k, In k keys' <-> In k (u_keys s)) ->
   forall o, replay_keys B off keys' (u_dsk s) o = d0 o.
